@@ -108,6 +108,45 @@ def mutants(d, depth=3):
     return out
 
 
+def replace_first_bytes(d, bs):
+    """a copy of d whose first byte-string leaf is bs (None if it has none)"""
+    import copy
+    d = copy.deepcopy(d)
+
+    def go(x):
+        if x["d"] == "B":
+            x["v"] = list(bs)
+            return True
+        if x["d"] == "L":
+            return any(go(y) for y in x["v"])
+        if x["d"] == "C":
+            return any(go(y) for y in x["fs"])
+        if x["d"] == "M":
+            return any(go(k) or go(v) for k, v in x["v"])
+        return False
+    return d if go(d) else None
+
+
+def valid_utf8(bs):
+    try:
+        bytes(bs).decode("utf-8")
+        return True
+    except UnicodeDecodeError:
+        return False
+
+
+def has_ill_formed_text(d):
+    if d["d"] == "B":
+        return not valid_utf8(d["v"])
+    if d["d"] == "L":
+        return any(has_ill_formed_text(x) for x in d["v"])
+    if d["d"] == "C":
+        return any(has_ill_formed_text(x) for x in d["fs"])
+    if d["d"] == "M":
+        return any(has_ill_formed_text(k) or has_ill_formed_text(v) for k, v in d["v"])
+    return False
+
+
 def data_for(rng, ty, n_conf, tier):
     seen, out = set(), []
 
@@ -123,6 +162,14 @@ def data_for(rng, ty, n_conf, tier):
     for _ in range(n_conf):
         add(ag.to_data(ty, ag.rand_value(rng, ty, 3)), "conforming")
     base = [d for d, _ in out]
+    if "String" in ag.ty_str(ty):
+        # text positions: valid non-ASCII UTF-8 (accepted by schema and conversion alike) and ill-formed UTF-8 (the published schema says
+        # `bytes`, so it conforms; the conversion decodes and rejects: the recorded finding schema:string-published-as-bytes)
+        for d in base[:4]:
+            for bs in ([195, 169], [226, 130, 172, 33], [255], [195], [237, 160, 128], [192, 175]):
+                m = replace_first_bytes(d, bs)
+                if m is not None:
+                    add(m, "utf8")
     for d in base[:25 if tier == "quick" else 200]:
         for m in mutants(d, 2 if tier == "quick" else 3):
             add(m, "near-miss")
@@ -195,6 +242,13 @@ def c12(tier):
         if "canary" in e:
             continue
         ev = byid[e["id"]]
+        # the one recorded disagreement: a String is published as `bytes`, which cannot say "well-formed UTF-8". Attributed only when the
+        # SPECIFICATION's own two statements disagree that way (schema conforms, FromData rejects), the real code agrees with both of
+        # them (validate accepts, expect fails) and the data does hold ill-formed text; the shapes agree otherwise (SchemaFor held).
+        if why.startswith("the schema accepts this data but the type's conversion rejects it") and "String" in ev["_ty"] and \
+                ev["validate"] == "ok" and ev["expect"] == "fail" and has_ill_formed_text(ev["d"]):
+            rep.violation("schema:string-published-as-bytes", {"type": ev["_ty"], "data": ev["d"]}, why)
+            continue
         rep.violation(ev["_ty"] + "|" + cj(ev["d"]) + "|" + why[:40], {"type": ev["_ty"], "data": ev["d"], "validate": ev["validate"], "expect": ev["expect"],
                                                                        "published_schema": ev["root"], "kind": ev["_kind"]}, why)
     # (3) two conversions in one program: each must behave as it does alone (the single results were judged by Obs_Schema above)
